@@ -52,6 +52,7 @@ RULES = {
           "field / variant declaration order (so reordering the declaration changes the spec the way it changes the code)",
     "E8": "monomorphisation: a generic parameter (`mono T=i128`) or `Self` (`selftype i128`) is replaced textually by the "
           "concrete type named in the directive; the generic bound list is dropped",
+    "E16": "destructuring assignment `(a, b) = e;` -> `let t = e; a = t.0; b = t.1;` (Rust's own desugaring; Verus lacks it)",
     "E13": "`x op= e` on signed integers for op in {/,%} -> `x = x op e`",
 }
 
@@ -401,6 +402,16 @@ def rewrite_macros(text):
             else:
                 out = out[:m.start()] + "assert(%s)" % args[0] + out[cl + 1:]
             applied.add("E4")
+    # E16: destructuring assignment `(a, b) = e;` -> `let t = e; a = t.0; b = t.1;`
+    cnt = [0]
+    def _destr(m):
+        cnt[0] += 1
+        t = "verif_tmp_%d" % cnt[0]
+        return "%slet %s = %s; %s = %s.0; %s = %s.1;" % (m.group(1), t, m.group(4), m.group(2), t, m.group(3), t)
+    new = re.sub(r"(?m)^(\s*)\(([a-z_][A-Za-z0-9_]*),\s*([a-z_][A-Za-z0-9_]*)\)\s*=\s*([^=].*?);\s*$", _destr, out)
+    if new != out:
+        applied.add("E16")
+        out = new
     # E13
     new = re.sub(r"(?m)^(\s*)([A-Za-z_][A-Za-z0-9_\.]*)\s*([%/])=\s*(.*?);\s*$", r"\1\2 = \2 \3 (\4);", out)
     if new != out:
